@@ -52,7 +52,7 @@ def judge_doc(entry, plan):
     sc = gen.selfcheck(d)
     if sc:
         return 'skip', 'ambiguous under first-match: %s vs %s' % (sc[1], sc[2]), None
-    text = d.text(eol='\n')
+    text = d.text(eol=plan.get('eol', '\n'))
     o = pipe.run(text, sinks=('ack',))
     f = entry[4]
     v = []
@@ -139,7 +139,7 @@ def run(R):
     shards = []
     nplans = 0
     for e in entries:
-        plans = list(gen.plans_d1(e))
+        plans = list(gen.plans_d1(e)) + list(gen.plans_boundary(e, R.thorough))
         if R.thorough:
             plans += list(pair_plans(e))
         nplans += len(plans)
@@ -147,7 +147,7 @@ def run(R):
             shards.append((e, ch))
     R.pmap(work, shards)
     R.bounds = {'b': {'entries': len(entries), 'plans': nplans,
-                      'deviations': 'd<=1: minimal, max-length values, last codes, everything optional (elements empty / filled), 2 sets / groups / interchanges, each optional node included, each repeatable node twice and max (<=10) times, each situational element / component filled'
+                      'deviations': 'd<=1: minimal, max-length values, last codes, everything optional (elements empty / filled), 2 sets / groups / interchanges, each optional node included, each repeatable node twice and max (<=10) times, each situational element / component filled; boundary: a 160-set document (> two 8 KiB reads), LF / CRLF after every terminator, one value lengthened by 0..29 characters'
                       + ('; d<=2: pairs of structural deviations under one parent loop, each structural deviation with last codes' if R.thorough else '')}}
     sa = c02a.run_part(R)
     R.bounds['a'] = sa
